@@ -20,6 +20,7 @@ func init() {
 	verifRegister("VerifC14_KAny", VerifC14_KAny)
 	verifRegister("VerifC14_KTypes", VerifC14_KTypes)
 	verifRegister("VerifC14_KNested", VerifC14_KNested)
+	verifRegister("VerifC14_KRegexp", VerifC14_KRegexp)
 }
 
 var c14Env *lisp.LEnv
@@ -53,6 +54,7 @@ func VerifC14_KTruthy_Setup()    { c14Setup() }
 func VerifC14_KAny_Setup()       { c14Setup() }
 func VerifC14_KTypes_Setup()     { c14Setup() }
 func VerifC14_KNested_Setup()    { c14Setup() }
+func VerifC14_KRegexp_Setup()    { c14Setup() }
 
 func c14Load(env *lisp.LEnv, src string) *lisp.LVal { return env.LoadString("c14", src) }
 
@@ -671,4 +673,73 @@ func VerifC14_KNested() {
 	}
 	gs := c14Verdict(c14Load(env, "(s:validate tiny \"s\")"))
 	vAssert(gs == WrongType, "a value of another type is wrong-type: "+gs)
+}
+
+
+// s:regexp accepts exactly the strings the pattern MATCHES -- anywhere in the string unless the
+// pattern is anchored (RE2 semantics, as documented) -- and (s:not (s:regexp ...)) exactly the
+// others.  8 patterns (pure literals, escaped metacharacters, anchors, a wildcard, an alternation,
+// the empty pattern), each with a hand-written matcher as oracle; the subject is every string of
+// 0..3 bytes over {a b . j x newline}.
+func VerifC14_KRegexp() {
+	env := c14Setup()
+	pats := []string{"ab", "a", "^ab", "ab$", "a.b", "a|j", "\\\\.j", "", "b+x"}
+	pi := vConcInt(vndChoice("pattern", len(pats)))
+	n := vndChoice("len", 4)
+	sb := make([]byte, n)
+	for i := range sb {
+		c := vndByte("c")
+		vAssume(c == 'a' || c == 'b' || c == '.' || c == 'j' || c == 'x' || c == '\n')
+		sb[i] = c
+	}
+	sub := string(sb)
+	has := func(lit string) bool {
+		for i := 0; i+len(lit) <= len(sub); i++ {
+			if sub[i:i+len(lit)] == lit {
+				return true
+			}
+		}
+		return false
+	}
+	var want bool
+	switch pi {
+	case 0:
+		want = has("ab")
+	case 1:
+		want = has("a")
+	case 2:
+		want = len(sub) >= 2 && sub[:2] == "ab"
+	case 3:
+		want = len(sub) >= 2 && sub[len(sub)-2:] == "ab"
+	case 4:
+		for i := 0; i+3 <= len(sub); i++ {
+			if sub[i] == 'a' && sub[i+1] != '\n' && sub[i+2] == 'b' {
+				want = true
+			}
+		}
+	case 5:
+		want = has("a") || has("j")
+	case 6:
+		want = has(".j")
+	case 7:
+		want = true
+	case 8:
+		want = has("bx")
+	}
+	env.PutGlobal(lisp.Symbol("subject"), lisp.String(sub))
+	r := c14Load(env, "(set 'rv (s:make-validator \"r\" s:string (s:regexp \""+pats[pi]+"\"))) (set 'nv (s:make-validator \"n\" s:string (s:not (s:regexp \""+pats[pi]+"\"))))")
+	vAssert(r.Type != lisp.LError, "schemas build: "+c14Verdict(r))
+	got := c14Verdict(c14Load(env, "(s:validate rv subject)"))
+	gotN := c14Verdict(c14Load(env, "(s:validate nv subject)"))
+	vObserve("pattern", pats[pi])
+	vObserve("subject", sub)
+	if want {
+		vAssert(got == "ok", "a string the pattern matches validates: "+got)
+		vAssert(gotN == FailedConstraint, "and fails the negated constraint: "+gotN)
+		vCover("match")
+	} else {
+		vAssert(got == FailedConstraint, "a string the pattern does not match is failed-constraint: "+got)
+		vAssert(gotN == "ok", "and satisfies the negated constraint: "+gotN)
+		vCover("nomatch")
+	}
 }
